@@ -442,7 +442,10 @@ class Ctx:
             groups = {}
             for f in self.failures:
                 groups.setdefault(_canon(f["signature"]), []).append(f)
-            for i, (k, fs) in enumerate(sorted(groups.items())):
+            allgroups = sorted(groups.items())
+            if len(allgroups) > 20:
+                print(f"  ({len(allgroups)} distinct violation signatures; the first 20 are reported)")
+            for i, (k, fs) in enumerate(allgroups[:20]):
                 fs.sort(key=lambda f: len(_canon(f["replay"])))
                 path = os.path.join(VERIF, "replays", f"{self.pid}_{self.tier}_{self.seed}_{i}.json")
                 json.dump({"property": self.pid, "signature": fs[0]["signature"],
